@@ -437,3 +437,100 @@ func (c *Ctx) AllMatch(rule, fnName, label, selRe, mustRe string, min int) {
 			"found: "+ir.InstrDesc(in))
 	}
 }
+
+// ReachSpec is the general path obligation all others are instances of.
+// Exploration starts after each instruction matching From (or at the entry),
+// does not continue past instructions matching Stop, does not follow edges of
+// the Cut clauses, and the obligation is that instructions matching Target
+// ("EXIT" = any return) are reachable (Want) or unreachable (!Want).
+type ReachSpec struct {
+	From   string
+	// FromEdge: start at the target blocks of the edges matching this clause.
+	FromEdge *ir.Clause
+	Stop   string
+	Cut    []ir.Clause
+	Target string
+	Want   bool
+}
+
+func (c *Ctx) Reach(rule, fnName, label string, sp ReachSpec) {
+	fn := c.Fn(rule, fnName)
+	if fn == nil {
+		return
+	}
+	var stop func(ssa.Instruction) bool
+	if sp.Stop != "" {
+		sr := re(sp.Stop)
+		stop = func(in ssa.Instruction) bool { return sr.MatchString(ir.InstrDesc(in)) }
+	}
+	cut := func(a ir.Atom) bool {
+		for _, cl := range sp.Cut {
+			if cl.MatchAtom(a) {
+				return true
+			}
+		}
+		return false
+	}
+	type start struct {
+		b   *ssa.BasicBlock
+		idx int
+		pos string
+	}
+	var starts []start
+	if sp.FromEdge != nil {
+		for _, b := range fn.Blocks {
+			for i, sb := range b.Succs {
+				if sp.FromEdge.MatchEdge(b, i) {
+					pos := c.P.FuncPos(fn)
+					if len(sb.Instrs) > 0 {
+						pos = c.pos(sb.Instrs[0])
+					}
+					starts = append(starts, start{sb, 0, pos})
+				}
+			}
+		}
+		if len(starts) == 0 {
+			c.R.Unknown(rule, fnName, label, c.P.FuncPos(fn), "no edge matches start clause {"+sp.FromEdge.Name+"}")
+			return
+		}
+	} else if sp.From == "" {
+		starts = []start{{ir.Entry(fn), 0, c.P.FuncPos(fn)}}
+	} else {
+		for _, in := range matches(fn, sp.From) {
+			starts = append(starts, start{in.Block(), ir.IndexOf(in) + 1, c.pos(in)})
+		}
+		if len(starts) == 0 {
+			c.R.Unknown(rule, fnName, label, c.P.FuncPos(fn), "no instruction matches start /"+sp.From+"/")
+			return
+		}
+	}
+	var targets []ssa.Instruction
+	if sp.Target == "EXIT" {
+		targets = ir.Exits(fn, false)
+	} else {
+		targets = matches(fn, sp.Target)
+	}
+	if len(targets) == 0 {
+		c.R.Unknown(rule, fnName, label, c.P.FuncPos(fn), "no instruction matches target /"+sp.Target+"/")
+		return
+	}
+	for i, st := range starts {
+		w := (&ir.Walk{Stop: stop, Cut: cut}).From(st.b, st.idx)
+		var hit ssa.Instruction
+		for _, t := range targets {
+			if w.Reached[t] && !(stop != nil && stop(t)) {
+				hit = t
+				break
+			}
+		}
+		construct := fmt.Sprintf("%s[%d]", label, i)
+		if sp.Want {
+			c.R.Check(hit != nil, rule, fnName, construct, st.pos, fmt.Sprintf("no instruction matching /%s/ is reachable from here (stop=/%s/)", sp.Target, sp.Stop))
+		} else if hit != nil {
+			c.R.Bad(rule, fnName, construct, st.pos, fmt.Sprintf("%q at %s is reachable without passing /%s/ and without crossing the guard edges; path: %s",
+				ir.InstrDesc(hit), c.pos(hit), sp.Stop, strings.Join(w.PathTo(c.P, hit), " -> ")))
+		} else {
+			c.R.OK(rule, fnName, construct, st.pos, "")
+		}
+	}
+}
